@@ -288,7 +288,15 @@ theorem stereoDecodePred_spec {ix : List Nat} {d : Dec} (hok : PredOk ix) (h : R
       after d (predOps ix)) := by
   rw [predOps_eq hok] at h ⊢
   unfold stereoDecodePred stereoDecodePredG
-  rw [stereoIxG_spec h]
+  split
+  rename_i nn a0 a1 b0 b1 c5 e
+  rw [stereoIxG_spec h] at e
+  obtain ⟨e6, rfl⟩ := Prod.mk.inj e
+  obtain ⟨rfl, e7⟩ := Prod.mk.inj e6
+  obtain ⟨rfl, e8⟩ := Prod.mk.inj e7
+  obtain ⟨rfl, e9⟩ := Prod.mk.inj e8
+  obtain ⟨rfl, rfl⟩ := Prod.mk.inj e9
+  rfl
 
 theorem predOps_legal {ix : List Nat} (h : PredOk ix) : IcLegal (predOps ix) := by
   rw [predOps_eq h]
